@@ -314,6 +314,7 @@ def run(ctx):
     ctx.run_rule('C01.2b', 'T2', 'recursive validators run only after cycles were rejected (argument of SCCs dictionary_key, all_base_interfaces)', c05.r_cycles_first, prog)
     ctx.run_rule('C01.2c', 'T8', 'cycle detector recursion guard (argument of SCC cycle_detector)', c05.r_recursion_guard, prog)
     ctx.run_rule('C01.2d', 'T8', 'inheritance loops rejected before the base closure is computed; guarded search (SCCs all_base_interfaces, inheritance_search)', c05.r_inheritance, prog)
+    ctx.run_rule('C01.2e', 'T2', 'self-containing aliases rejected before any recursive walk over type expressions (argument of SCCs type_string, typeref_visit, cycle_detector, dictionary_key)', c05.r_alias_through_anonymous, prog)
     ctx.run_rule('C01.3d', 'T9', 'alias chain loop: membership exit and growing chain (loop ledger variant)', c05.r_alias_loop, prog)
     ctx.run_rule('C01.3a', 'T9', 'every loop consumes on every path round it, or is in the loop ledger with its progress calls', r_loops, prog)
     ctx.run_rule('C01.3b', 'T9', 'lexers: no token at end of buffer without a state change', r_lexer_eof_state, prog)
